@@ -11,56 +11,66 @@
 EXTENDS Integers, Sequences, FiniteSets, Json, IOUtils, TLC
 
 Log == TLCGet(1)
-VARIABLES l, skip, run, live, started, done
-tvars == <<l, skip, run, live, started, done>>
+VARIABLES l, skip, run, live, started, done, scen, opening
+tvars == <<l, skip, run, live, started, done, scen, opening>>
 
 Report(v) == PrintT("VERDICT " \o ToJson(v))
 Line == Log[l]
 Verdict(why) == [case |-> run, chart |-> 0, exec |-> "mt_invoke", line |-> l, property |-> "C11", why |-> why,
                  action |-> IF "cb" \in DOMAIN Line THEN Line.cb ELSE "end", got |-> Line,
                  expected |-> [live |-> live, started |-> started, done |-> done], extra |-> <<>>]
-Bad(why) == Report(Verdict(why)) /\ skip' = TRUE /\ UNCHANGED <<run, live, started, done>>
+Bad(why) == Report(Verdict(why)) /\ skip' = TRUE /\ UNCHANGED <<run, live, started, done, scen, opening>>
+\* C13 on the same recordings: beforeInvoking is closed by afterInvoking before the session does anything else
+BadBracket == Report([Verdict("beforeInvoking-without-afterInvoking") EXCEPT !.property = "C13"])
+              /\ skip' = TRUE /\ UNCHANGED <<run, live, started, done, scen, opening>>
 
 AInit == /\ TLCSet(1, ndJsonDeserialize(IOEnv.TRACE))
-         /\ l = 1 /\ skip = TRUE /\ run = 0 /\ live = {} /\ started = {} /\ done = FALSE
+         /\ l = 1 /\ skip = TRUE /\ run = 0 /\ live = {} /\ started = {} /\ done = FALSE /\ scen = "one" /\ opening = ""
 
 AReset == /\ Line.k = "reset"
-          /\ run' = Line.run /\ skip' = (Line.scenario # "all") /\ live' = {} /\ started' = {} /\ done' = FALSE
+          /\ run' = Line.run /\ skip' = (Line.scenario \notin {"all", "bad"}) /\ live' = {} /\ started' = {} /\ done' = FALSE
+          /\ scen' = Line.scenario /\ opening' = ""
           /\ l' = l + 1
 
 AParent ==
     /\ Line.k = "ev" /\ Line.r = "P" /\ ~skip
-    /\ CASE Line.cb = "aIV" ->
+    /\ IF opening # "" /\ ~(Line.cb = "aIV" /\ Line.a = opening) THEN BadBracket
+       ELSE
+       CASE Line.cb = "bIV" ->
+              opening' = Line.a /\ UNCHANGED <<skip, run, live, started, done, scen>>
+         [] Line.cb = "aIV" ->
               IF Line.a \in live THEN Bad("invoke-started-twice")
-              ELSE live' = live \cup {Line.a} /\ started' = started \cup {Line.a} /\ UNCHANGED <<skip, run, done>>
+              ELSE live' = (IF scen = "bad" THEN live ELSE live \cup {Line.a}) /\ started' = started \cup {Line.a}
+                   /\ opening' = "" /\ UNCHANGED <<skip, run, done, scen>>
          [] Line.cb = "aUI" ->
-              IF Line.a \notin live THEN Bad("uninvoked-twice-or-never-invoked")
-              ELSE live' = live \ {Line.a} /\ UNCHANGED <<skip, run, started, done>>
+              IF scen = "bad" THEN UNCHANGED <<skip, run, live, started, done, scen, opening>>     \* nothing runs
+              ELSE IF Line.a \notin live THEN Bad("uninvoked-twice-or-never-invoked")
+              ELSE live' = live \ {Line.a} /\ UNCHANGED <<skip, run, started, done, scen, opening>>
          [] Line.cb = "aCO" ->
               IF live # {} THEN Bad("session-ended-with-invocations-still-running")
-              ELSE done' = TRUE /\ UNCHANGED <<skip, run, live, started>>
-         [] OTHER -> UNCHANGED <<skip, run, live, started, done>>
+              ELSE done' = TRUE /\ UNCHANGED <<skip, run, live, started, scen, opening>>
+         [] OTHER -> UNCHANGED <<skip, run, live, started, done, scen, opening>>
     /\ l' = l + 1
 
 AChild ==
     /\ Line.k = "ev" /\ Line.r = "C" /\ ~skip
     /\ IF done THEN Bad("invoked-session-active-after-the-invoking-session-ended")
-       ELSE UNCHANGED <<skip, run, live, started, done>>
+       ELSE UNCHANGED <<skip, run, live, started, done, scen, opening>>
     /\ l' = l + 1
 
 ADriver == /\ Line.k = "ev" /\ Line.r = "D" /\ ~skip
            /\ IF Line.cb = "finished" /\ Line.a # "yes" THEN Bad("parent-did-not-finish")
-              ELSE UNCHANGED <<skip, run, live, started, done>>
+              ELSE UNCHANGED <<skip, run, live, started, done, scen, opening>>
            /\ l' = l + 1
 
 AEnd == /\ Line.k = "end" /\ ~skip
         /\ (Line.exit # "ok" => Report(Verdict("run-ended-" \o Line.exit)))
-        /\ (Line.exit = "ok" /\ Cardinality(started) # 2 => Report(Verdict("not-both-invocations-started")))
+        /\ (Line.exit = "ok" /\ scen = "all" /\ Cardinality(started) # 2 => Report(Verdict("not-both-invocations-started")))
         /\ (Line.exit = "ok" /\ ~done => Report(Verdict("no-afterCompletion")))
-        /\ skip' = TRUE /\ UNCHANGED <<run, live, started, done>> /\ l' = l + 1
+        /\ skip' = TRUE /\ UNCHANGED <<run, live, started, done, scen, opening>> /\ l' = l + 1
 
 ASkip == /\ skip /\ Line.k \in {"ev", "end"}
-         /\ UNCHANGED <<skip, run, live, started, done>> /\ l' = l + 1
+         /\ UNCHANGED <<skip, run, live, started, done, scen, opening>> /\ l' = l + 1
 
 ANext == l <= Len(Log) /\ (AReset \/ AParent \/ AChild \/ ADriver \/ AEnd \/ ASkip)
 ASpec == AInit /\ [][ANext]_tvars
